@@ -6,7 +6,7 @@ list: no repetition; every member lossless and its levels Grundy (`ss.check_leve
 Grundy colouring present (the model's members, each re-checked Grundy, must all occur); contains the optimal
 and the FCFS notation; a single round-bracket string for pseudoknot-free structures.
 """
-from core import call_timed, Result, call, parallel_map
+from core import history_probe, call_timed, Result, call, parallel_map
 from gen import g1
 from corr.c01 import component_sizes, components_ok
 
@@ -129,6 +129,7 @@ def run(ctx):
             inputs.append(("twin-groups", tw))
     inputs = [(t, c) for t, c in inputs if components_ok(c[1], limit)]
     outs = parallel_map(real, [c for _, c in inputs])
+    history_probe(ctx, res, real, [c for _, c in inputs], "all_dot_brackets")
     reqs, idx = [], []
     for ci, ((tag, (seq, pairs)), o) in enumerate(zip(inputs, outs)):
         ps = g1.pstr(pairs)
